@@ -14,9 +14,16 @@ import Pog.Model.Surface
 
   A tag tuple is `(tag, class_name, module_name)` in the order of the Python tuple.
 
+  F64 repaired: the NAME under which a tag client is exposed (property, private attribute `_<name>`, keyword of
+  `MockAPIClient.__init__`) is `_tag_attr_name(module_name)` = `tagAttr`: the module name, with a trailing underscore when it
+  (or `_` + it) is one of the names the three classes define themselves (`_OWN_MEMBER_NAMES` = `ownMembers`).  The import
+  paths keep the module name.  (`Pog.clientProps` / `Pog.mockClientProps` of Pog/Model/Surface.lean list the MODULE names of
+  the tuples in property order - the third components - not the attribute names.)
+
   What is abstracted: the text of docstrings and of method bodies (fixed strings, except the tag name inside a docstring).
   `visitSyntaxOk` / `mockSyntaxOk` are a DESCRIPTION of CPython's compiler for the emitted shape (TRUSTED, checked by the
-  correspondence on ASCII module names): the text compiles iff every module name is an identifier that is no keyword,
+  correspondence on ASCII module names): the text compiles iff every module name and every attribute name (`tagAttr`) is an
+  identifier that is no keyword,
   `MockAPIClient.__init__` has a non-empty body and no duplicate parameter.  Tags that break the DOCSTRING they are quoted in
   (`"""`, a trailing backslash, a line break) are outside this description (the docstring text is not modelled); non-ASCII
   module names (`用户` is a valid Python identifier, `isPyIdent` is ASCII-only) are not compared by the correspondence.
@@ -101,7 +108,14 @@ def fixedMethods : List Str := [kRequest, kClose, kAenter, kAexit]
 /-- `self.config`, `self.transport`, `self._base_url` -/
 def fixedAttrs : List Str := [kConfig, kTransport, kBaseUrl]
 
-/-- `self._<module_name>` -/
+/-- `ClientVisitor._OWN_MEMBER_NAMES`: the instance attributes, the methods and the receiver of `MockAPIClient.__init__`. -/
+def ownMembers : List Str := [kConfig, kTransport, kBaseUrl, kRequest, kClose, kAenter, kAexit, kInit, kSelf]
+
+/-- `ClientVisitor._tag_attr_name`: `module_name + "_"` when `module_name` or `"_" + module_name` is an own member. -/
+def tagAttr (m : Str) : Str :=
+  if ownMembers.contains m || ownMembers.contains ('_' :: m) then m ++ ['_'] else m
+
+/-- `self._<attr_name>` -/
 def privAttr (m : Str) : Str := '_' :: m
 
 /-- `generate_client_protocol` -/
@@ -112,7 +126,7 @@ def protocolSkel (tt : List TagTuple) : ClassSkel :=
     initParams := []
     attrs := []
     initBodyEmpty := false
-    props := tt.map fun t => (t.module, t.cls ++ kProtocolSuffix)
+    props := tt.map fun t => (tagAttr t.module, t.cls ++ kProtocolSuffix)
     methods := fixedMethods }
 
 /-- `_generate_client_implementation` -/
@@ -121,9 +135,9 @@ def apiClientSkel (tt : List TagTuple) : ClassSkel :=
     bases := ["APIClientProtocol".toList]
     hasInit := true
     initParams := [kSelf, kConfig, kTransport]
-    attrs := fixedAttrs ++ tt.map fun t => privAttr t.module
+    attrs := fixedAttrs ++ tt.map fun t => privAttr (tagAttr t.module)
     initBodyEmpty := false
-    props := tt.map fun t => (t.module, t.cls)
+    props := tt.map fun t => (tagAttr t.module, t.cls)
     methods := fixedMethods }
 
 /-- `generate_client_mock_class` -/
@@ -131,11 +145,11 @@ def mockClientSkel (tt : List TagTuple) : ClassSkel :=
   { name := "MockAPIClient".toList
     bases := []
     hasInit := true
-    initParams := kSelf :: tt.map (·.module)
-    attrs := tt.map fun t => privAttr t.module
+    initParams := kSelf :: tt.map fun t => tagAttr t.module
+    attrs := tt.map fun t => privAttr (tagAttr t.module)
     -- F31 repaired: without tag clients the constructor body is the single statement `pass`
     initBodyEmpty := false
-    props := tt.map fun t => (t.module, t.cls ++ kProtocolSuffix)
+    props := tt.map fun t => (tagAttr t.module, t.cls ++ kProtocolSuffix)
     methods := fixedMethods }
 
 /-- The default value of the `i`-th keyword of `MockAPIClient.__init__`: `Mock<Class>()`. -/
@@ -208,13 +222,15 @@ def allDistinct : List Str → Bool
   | [] => true
   | x :: xs => !xs.contains x && allDistinct xs
 
-/-- `client.py` (Protocol + APIClient): `def <module>(self)`, `self._<module>`, `from .endpoints.<module> import …`. -/
-def visitSyntaxOk (tt : List TagTuple) : Bool := tt.all fun t => isValidPyIdentifier t.module
+/-- `client.py` (Protocol + APIClient): `def <attr>(self)`, `self._<attr>`, `from .endpoints.<module> import …`. -/
+def visitSyntaxOk (tt : List TagTuple) : Bool :=
+  tt.all fun t => isValidPyIdentifier t.module && isValidPyIdentifier (tagAttr t.module)
 
 /-- `mock_client.py`: additionally the body of `__init__` must not be empty and its parameters (`self` included) must be
     pairwise distinct (`SyntaxError: duplicate argument`). -/
 def mockSyntaxOk (tt : List TagTuple) : Bool :=
-  !(mockClientSkel tt).initBodyEmpty && tt.all (fun t => isValidPyIdentifier t.module) &&
+  !(mockClientSkel tt).initBodyEmpty &&
+    tt.all (fun t => isValidPyIdentifier t.module && isValidPyIdentifier (tagAttr t.module)) &&
     allDistinct (mockClientSkel tt).initParams
 
 /-! ## What Python makes of the class body -/
